@@ -19,7 +19,7 @@ def gen_C01(ctx):
     out += st_malformed(ctx, ctx.n(6000, 400000), shapes, "c01-mal")
     out += st_tokens(ctx, ["S"], 3 if ctx.tier == "quick" else 4, TOKENS_Q, prefix="pkg:t/")
     out += st_token_sample(ctx, ctx.n(4000, 300000), shapes, TOKENS_T, "c01-tok")
-    out += st_long(ctx, shapes, "c01-long", every=ctx.tier == "thorough")
+    out += st_long(ctx, shapes, "c01-long", every=ctx.tier == "thorough") + st_long_runs()
     out += st_classes(ctx, shapes, "c01-cls")
     out += st_huge(ctx)
     out += st_scalars_parse(utf8_boundary_scalars())
@@ -40,6 +40,7 @@ def gen_C03(ctx):
     out += st_builder(ctx, ctx.n(8000, 400000), ["S", "P", "CB", "M"], "c03-build")
     out += st_classes(ctx, ["S", "P"], "c03-cls") + st_classes_build(ctx, ["S", "P", "CB", "M"], "c03-clsb")
     out += st_fmtlim(ctx, ctx.n(1500, 100000), ["S", "P"], "c03-fmtlim")
+    out += st_long(ctx, ["S", "P"], "c03-long", every=ctx.tier == "thorough") + st_long_api(ctx) + st_long_runs()
     out += st_scalars(["ns", "name", "version", "qvalue", "subpath"], step=1 if ctx.tier == "thorough" else 4099)
     out += st_scalars_at(utf8_boundary_scalars(), ["ns", "name", "version", "qvalue", "subpath"])
     if ctx.tier == "quick":
@@ -104,6 +105,30 @@ def gen_C10(ctx):
     return out
 
 
+def st_long_runs():
+    """one long run of bytes that need no escaping (and one of bytes that all do) in every component, at the sizes of
+    the usual staging buffers (256 ... 64 KiB, one below / at / one above), through the builder and the parser: what is
+    written must not depend on how the output is chunked"""
+    out = []
+    for L in (255, 256, 257, 511, 512, 513, 1023, 1024, 1025, 4095, 4096, 4097, 8192, 65535, 65536, 65537):
+        safe, esc = ("ab" * L)[:L], ("%20" * L)
+        for x, tag in ((safe, "safe"), ("a" + safe, "safe1"), (" " * L, "esc")):
+            if tag == "esc" and L > 4097:
+                continue
+            for sh, ty in (("S", hx("t")), ("P", "Maven")):
+                out.append(case("build %s %s %s ns:%s" % (sh, ty, hx(x), hx("g")), "long-runs", shape=sh, nomodel=L > 4097))
+                out.append(case("build %s %s %s ns:%s;ver:%s" % (sh, ty, hx("n"), hx("g"), hx(x)), "long-runs", shape=sh, nomodel=L > 4097))
+                out.append(case("build %s %s %s ns:%s" % (sh, ty, hx("n"), hx("g/" + x + "/h")), "long-runs", shape=sh, nomodel=L > 4097))
+                out.append(case("build %s %s %s ns:%s;sub:%s" % (sh, ty, hx("n"), hx("g"), hx("s/" + x)), "long-runs", shape=sh, nomodel=L > 4097))
+                out.append(case("build %s %s %s ns:%s;q:%s:%s" % (sh, ty, hx("n"), hx("g"), hx("k"), hx(x)), "long-runs", shape=sh, nomodel=L > 4097))
+            if L <= 4097:
+                out.append(case("build S %s %s -" % (hx(("t" + safe)[:L]), hx("n")), "long-runs", shape="S"))
+            enc = esc if tag == "esc" else x
+            s_ = "pkg:t/g/%s@%s?k=%s#%s" % (enc, enc, enc, enc)
+            out.append(case("parse S " + hx(s_), "long-runs", s=s_, shape="S", nomodel=L > 4097))
+    return out
+
+
 def st_limit_lengths():
     """names whose length sits on the limits the ecosystems document (nuget 100, npm 214, 63 / 64, 127 / 128, 255 / 256),
     ending in a letter whose lower-case form is LONGER (U+0130), or all upper-case: through the builder and the parser,
@@ -156,6 +181,14 @@ def gen_C13(ctx):
         for tup in itertools.product(alpha, repeat=k):
             for sh in ("S", "CB", "CO", "M"):
                 b.append(case("build %s %s %s -" % (sh, hx("".join(tup)), hx("n")), "type-strings", shape=sh, group="t%d" % i))
+            i += 1
+    # every ASCII character (and a few others) at the start, in the middle and at the end of an otherwise valid type,
+    # through the BUILDER of every shape (the owned carriers validate and lower-case in place, the borrowed one
+    # validates first: a validation applied to an already transformed byte shows here), lower- and upper-case context
+    for cp in list(range(128)) + [0xE9, 0x130, 0x212A, 0xFF0B, 0x17F]:
+        for pat in ("np%sm", "%snpm", "npm%s", "N%sPM", "%s"):
+            for sh in ("S", "CB", "CO", "M"):
+                b.append(case("build %s %s %s -" % (sh, hx(pat % chr(cp)), hx("n")), "type-bytes", shape=sh, group="t%d" % i))
             i += 1
     for j, c in enumerate(b):
         c["group13"] = n0 + j // 4
@@ -309,6 +342,7 @@ def gen_C11(ctx):
     out += [c for c in st_long_api(ctx) if c["req"].startswith("quals ")]
     out += st_dup_keys(["S", "P"])
     out += st_bsearch(ctx, ctx.n(2500, 200000), "c11-bsearch")
+    out += st_iter_scripts()
     return out
 
 
